@@ -115,6 +115,14 @@ CO_SDO *COSdoCheck(CO_SDO *srv, CO_IF_FRM *frm)
     return (result);
 }
 
+/* a new initiate request replaces a transfer, which is still open */
+static void COSdoNewRequest(CO_SDO *srv)
+{
+    COSdoAbortReq(srv);
+    srv->Idx = CO_GET_WORD(srv->Frm, 1);
+    srv->Sub = CO_GET_BYTE(srv->Frm, 3);
+}
+
 CO_ERR COSdoResponse(CO_SDO *srv)
 {
     CO_ERR  result = CO_ERR_SDO_ABORT;
@@ -154,11 +162,13 @@ CO_ERR COSdoResponse(CO_SDO *srv)
 
     /* expedited transfer */
     if ((cmd & 0xF2) == 0x22) {
+        COSdoNewRequest(srv);
         result = COSdoGetObject(srv, CO_SDO_WR);
         if (result == 0) {
             result = COSdoDownloadExpedited(srv);
         }
     } else if (cmd == 0x40) {
+        COSdoNewRequest(srv);
         result = COSdoGetObject(srv, CO_SDO_RD);
         if (result == 0) {
             result = COSdoUploadExpedited(srv);
@@ -166,6 +176,7 @@ CO_ERR COSdoResponse(CO_SDO *srv)
 
     /* segmented transfer */
     } else if ((cmd & 0xF2) == 0x20) {
+        COSdoNewRequest(srv);
         result = COSdoGetObject(srv, CO_SDO_WR);
         if (result == 0) {
             result = COSdoInitDownloadSegmented(srv);
@@ -177,11 +188,13 @@ CO_ERR COSdoResponse(CO_SDO *srv)
 
     /* block transfer */
     } else if ((cmd & 0xF9) == 0xC0) {
+        COSdoNewRequest(srv);
         result = COSdoGetObject(srv, CO_SDO_WR);
         if (result == 0) {
             result = COSdoInitDownloadBlock(srv);
         }
     } else if ((cmd & 0xE3) == 0xA0) {
+        COSdoNewRequest(srv);
         result = COSdoInitUploadBlock(srv);
     } else if (cmd == 0xA3) {
         result = COSdoUploadBlock(srv);
